@@ -1,6 +1,8 @@
 import ChythonModel.Proofs.C08Labels
 import ChythonModel.Proofs.C08Pair
 import ChythonModel.Model.SmartsFull
+import ChythonModel.Proofs.C08Match
+import ChythonModel.Props.C07
 import Mathlib.Data.List.Perm.Basic
 import Mathlib.Tactic.SplitIfs
 /-!
@@ -756,5 +758,172 @@ theorem pair_match_is_documented (d1 d2 : DocAtom) (b : DocBond) (h1 : DocWF d1 
   simp only [Bool.and_eq_true]
   rw [eq_is_spec _ _ (denote_wf d1 h1) ha1, eq_is_spec _ _ (denote_wf d2 h2) ha2, bond_eq_is_spec]
   exact ⟨fun h => ⟨h.1.1, h.1.2, h.2⟩, fun h => ⟨⟨h.1, h.2.1⟩, h.2.2⟩⟩
+
+/-! ## 9. whole patterns: `smarts(text).get_mapping(mol)` for patterns of any size -/
+
+section Pattern
+open ChythonModel.Spec.Embedding
+
+
+/-- the atom comparison handed to the matcher is the documented predicate on the labelled atom -/
+theorem atomOk_is_documented (g : QGraph) (m : Mol) (sssr : List (List Nat))
+    (hQ : ∀ p ∈ g.atoms, QWF p.2) (hz : ∀ p ∈ m.atoms, 1 ≤ p.2.z ∧ p.2.z ≤ 118) (u x : Nat) :
+    atomOkOf g m sssr u x = true ↔ ∃ q a, qAtomAt g u = some q ∧ mAtomOf m sssr x = some a ∧ Matches q a := by
+  unfold atomOkOf
+  cases hq : qAtomAt g u with
+  | none => simp
+  | some q =>
+    cases ha : mAtomOf m sssr x with
+    | none => simp
+    | some a =>
+      simp only [Option.some.injEq, exists_and_left, exists_eq_left']
+      exact eq_is_spec q a (hQ _ (qAtomAt_mem g u q hq)) (mAtomOf_awf m sssr hz x a ha)
+
+/-- the bond comparison handed to the matcher is the documented predicate on the labelled bond -/
+theorem bondOk_is_documented (g : QGraph) (m : Mol) (sssr : List (List Nat)) (u v x y : Nat) :
+    bondOkOf g m sssr u v x y = true ↔ ∃ qb b, qBondAt g u v = some qb ∧ mBondAt m sssr x y = some b ∧ BondMatches qb b := by
+  unfold bondOkOf
+  cases hq : qBondAt g u v with
+  | none => simp
+  | some q =>
+    cases hb : mBondAt m sssr x y with
+    | none => simp
+    | some b =>
+      simp only [Option.some.injEq, exists_and_left, exists_eq_left']
+      exact bond_eq_is_spec q b
+
+theorem mBondAt_isSome (m : Mol) (sssr : List (List Nat)) (x y : Nat) :
+    (mBondAt m sssr x y).isSome = (m.bond? x y).isSome := by
+  unfold mBondAt; cases m.bond? x y <;> rfl
+
+/-- C07's notion of an embedding, instantiated with C08's comparison models, is the documented notion -/
+theorem isEmbedding_iff_documented (g : QGraph) (m : Mol) (sssr : List (List Nat))
+    (hQ : ∀ p ∈ g.atoms, QWF p.2) (hz : ∀ p ∈ m.atoms, 1 ≤ p.2.z ∧ p.2.z ≤ 118) (f : Nat → Nat) :
+    IsEmbedding (qIsoGraph g) (molIsoGraph m) (fun _ => true) (atomOkOf g m sssr) (bondOkOf g m sssr) f ↔
+      DocEmbedding g m sssr f := by
+  constructor
+  · intro h
+    refine ⟨h.injective, ?_, ?_, ?_, h.components_apart⟩
+    · intro u hu
+      exact (atomOk_is_documented g m sssr hQ hz u (f u)).1 (h.atom_matches u hu)
+    · intro u hu v hb
+      have hv : v ∈ (qIsoGraph g).nbrs u := (qIso_nbrs g u v).2 ⟨hu, hb⟩
+      exact (bondOk_is_documented g m sssr u v (f u) (f v)).1 (h.bond_matches u hu v hv).2
+    · intro u hu v hv hr hs
+      have := h.no_extra_bond u hu v hv hr ((molIso_mem_nbrs m (f u) (f v)).2 hs)
+      exact ((qIso_nbrs g u v).1 this).2
+  · intro h
+    refine ⟨h.injective, ?_, ?_, ?_, ?_, h.components_apart, fun _ _ => rfl⟩
+    · intro u hu
+      obtain ⟨q, a, _, ha, _⟩ := h.atom_matches u hu
+      exact mAtomOf_in_ids m sssr (f u) a ha
+    · intro u hu
+      exact (atomOk_is_documented g m sssr hQ hz u (f u)).2 (h.atom_matches u hu)
+    · intro u hu v hv
+      have hb := ((qIso_nbrs g u v).1 hv).2
+      have hd := h.bond_matches u hu v hb
+      refine ⟨?_, (bondOk_is_documented g m sssr u v (f u) (f v)).2 hd⟩
+      obtain ⟨qb, b, _, hmb, _⟩ := hd
+      rw [molIso_mem_nbrs, ← mBondAt_isSome m sssr, hmb]; rfl
+    · intro u hu v hv hr hn
+      have := h.no_extra_bond u hu v hv hr ((molIso_mem_nbrs m (f u) (f v)).1 hn)
+      exact (qIso_nbrs g u v).2 ⟨hu, this⟩
+
+/-- **pattern_match_is_documented** — the property at its public observation point for patterns of ANY size (branches, ring
+    closures, query bonds on the closures, several components): for every well-formed query graph `g` (whatever `smarts()` or the
+    query API built) and every well-formed molecule with its labels, the model of
+    `g.get_mapping(mol, automorphism_filter=False, _cython=False)` — C07's matcher model run on C08's models of the two comparisons —
+    terminates normally and returns, without duplicates, exactly the dicts of the maps that are embeddings by the DOCUMENTED meaning:
+    injective, every pattern atom on an atom that `Matches` it, every pattern bond on a bond that `BondMatches` it, no molecule bond
+    between the images of unjoined atoms of one pattern component, different components apart. -/
+theorem pattern_match_is_documented (g : QGraph) (m : Mol) (sssr : List (List Nat)) (tComps : List (List Nat))
+    (hq : (qIsoGraph g).WF = true) (ht : (molIsoGraph m).WF = true) (hm : m.WF = true)
+    (hpart : Iso.checkComponents (molIsoGraph m) tComps = true) (hne : g.atoms ≠ [])
+    (hQ : ∀ p ∈ g.atoms, QWF p.2) (hz : ∀ p ∈ m.atoms, 1 ≤ p.2.z ∧ p.2.z ≤ 118) :
+    ∃ comps cl r, Iso.compileQuery (qIsoGraph g) = some (comps, cl) ∧ patternMapping g m sssr tComps = some r ∧ r.Nodup ∧
+      ∀ d, d ∈ r ↔ ∃ f, d = asDict (comps.flatten.map (·.front)) f ∧ DocEmbedding g m sssr f := by
+  have hb : ChythonModel.Props.C07.BondSymm (matchProblem g m sssr tComps).bondOk :=
+    fun u v x y => bondOkOf_symm g m sssr hm u v x y
+  have hat : (matchProblem g m sssr tComps).q.atoms ≠ [] := by
+    show (g.atoms.map (·.1)) ≠ []
+    intro h; exact hne (List.map_eq_nil_iff.1 h)
+  obtain ⟨comps, cl, r, hc, hr, hnd, hmem⟩ :=
+    ChythonModel.Props.C07.get_mapping_exact (matchProblem g m sssr tComps) hq ht hpart hb hat rfl
+  refine ⟨comps, cl, r, hc, hr, hnd, ?_⟩
+  intro d
+  rw [hmem d]
+  constructor
+  · rintro ⟨f, hd, hE⟩
+    exact ⟨f, hd, (isEmbedding_iff_documented g m sssr hQ hz f).1 hE⟩
+  · rintro ⟨f, hd, hD⟩
+    exact ⟨f, hd, (isEmbedding_iff_documented g m sssr hQ hz f).2 hD⟩
+
+/-- a ring-closure pattern with a constrained atom: `[C;D3]1[C][C]1` -/
+def exRingPattern : QGraph :=
+  { atoms := [(1, { kind := .element 6 none, neighbors := [3] }), (2, { kind := .element 6 none }), (3, { kind := .element 6 none })],
+    bonds := [(1, 2, ⟨[1], none, none⟩), (2, 3, ⟨[1], none, none⟩), (1, 3, ⟨[1], none, none⟩)] }
+
+/-- bicyclo[1.1.0]butane `C1C2CC12` (two triangles sharing the bond 2–4) -/
+def exCage : Mol :=
+  let c : Atom := { z := 6 }
+  let b : Bond := { order := 1 }
+  { atoms := [(1, c), (2, c), (3, c), (4, c)],
+    adj := [(1, [(2, b), (4, b)]), (2, [(1, b), (3, b), (4, b)]), (3, [(2, b), (4, b)]), (4, [(3, b), (1, b), (2, b)])] }
+
+def exRings : List (List Nat) := [[1, 2, 4], [2, 3, 4]]
+
+/-- the hypotheses of `pattern_match_is_documented` are satisfiable by a ring-closure pattern on a cage, and the result is not
+    trivial: the constrained atom goes onto a bridgehead (atom 2 or 4), 2 bridgeheads × 2 triangles × 2 directions = 8 mappings,
+    none of them using the two non-bonded atoms 1 and 3 together -/
+example : (qIsoGraph exRingPattern).WF = true ∧ (molIsoGraph exCage).WF = true ∧ exCage.WF = true ∧
+    Iso.checkComponents (molIsoGraph exCage) [[1, 2, 3, 4]] = true ∧ (∀ p ∈ exRingPattern.atoms, QWF p.2) ∧
+    (∀ p ∈ exCage.atoms, 1 ≤ p.2.z ∧ p.2.z ≤ 118) ∧
+    (patternMapping exRingPattern exCage exRings [[1, 2, 3, 4]]).map
+        (fun r => (r.length, r.all fun d => !(d.any (·.2 == 1) && d.any (·.2 == 3)))) = some (8, true) := by
+  refine ⟨by decide +kernel, by decide +kernel, by decide +kernel, by decide +kernel, by decide +kernel, by decide +kernel, by decide +kernel⟩
+
+/-- every atom `buildAtoms` returns was built by `buildAtom`, hence is well-formed -/
+theorem buildAtoms_wf : ∀ (ps : List Parsed) (ns : List Nat) (i : Nat) (rad seen : List Nat) (l : List (Nat × QAtom)),
+    buildAtoms ps ns i rad seen = .ok l → ∀ p ∈ l, QWF p.2 := by
+  intro ps
+  induction ps with
+  | nil => intro ns i rad seen l h; simp only [buildAtoms] at h; cases h; intro p hp; cases hp
+  | cons p ps ih =>
+    intro ns i rad seen l h
+    cases ns with
+    | nil => simp only [buildAtoms] at h; cases h; intro p hp; cases hp
+    | cons n ns =>
+      rw [buildAtoms] at h
+      simp only [bind, Except.bind] at h
+      split at h
+      · cases h
+      · rename_i a ha
+        split at h
+        · cases h
+        · split at h
+          · cases h
+          · rename_i rest hr
+            cases h
+            intro q hq
+            rcases List.mem_cons.1 hq with rfl | hq
+            · exact build_wf p _ a ha
+            · exact ih ns (i + 1) rad (n :: seen) rest hr q hq
+
+/-- **smartsFull_atoms_wf**: every atom of a query graph read from SMARTS text (full syntax) is well-formed — the hypothesis `hQ` of
+    `pattern_match_is_documented` always holds for what `smarts()` returns -/
+theorem smartsFull_atoms_wf (text rad : List Nat) (g : QGraph) (h : smartsFull text rad = .ok g) : ∀ p ∈ g.atoms, QWF p.2 := by
+  have hI : smartsFullInner text rad = .ok g := by
+    unfold smartsFull at h
+    split at h
+    · cases h
+    · exact h
+  unfold smartsFullInner at hI
+  repeat' split at hI
+  all_goals first | cases hI | skip
+  all_goals (dsimp only at hI; repeat' split at hI)
+  all_goals cases hI
+  all_goals exact buildAtoms_wf _ _ _ _ _ _ (by assumption)
+
+end Pattern
 
 end ChythonModel.Props.C08
